@@ -104,7 +104,7 @@ int main(int argc, char** argv) {
     const char* flavour = "plain";
 #endif
     // ---- base files
-    std::vector<std::pair<std::string, std::string>> baseDefs = {{"blank", "points=0;chans=0;frames=0;extra=none"}, {"points", "chans=0;points=1;extra=none"}, {"full", "events=2"}, {"params", "extra=all;frames=1"}, {"zeros", "zeros=7;extra=none"}, {"lean", "optparams=emptyscale;extra=none;frames=1"}};   // lean: channels whose ANALOG:SCALE/OFFSET hold no value (a float file never needs them)
+    std::vector<std::pair<std::string, std::string>> baseDefs = {{"blank", "points=0;chans=0;frames=0;extra=none"}, {"points", "chans=0;points=1;extra=none"}, {"full", "events=2"}, {"params", "extra=all;frames=1"}, {"zeros", "zeros=7;extra=none"}, {"lean", "optparams=emptyscale;extra=none;frames=1"}, {"zeros511", "zeros=511;extra=none;chans=0;points=1;frames=1"}};   // zeros511: the header starts on the last byte of a 512-byte block of the file   // lean: channels whose ANALOG:SCALE/OFFSET hold no value (a float file never needs them)
     std::vector<Base> bases;
     for (auto& bd : baseDefs) { Base b; b.name = bd.first; b.choice = bd.second; gen::Content c; gen::Layout l; gen::apply(gen::parseChoice(bd.second), c, l); b.bytes = gen::encode(c, l); std::string e = ref::decode(b.bytes, b.F, true); if (!e.empty()) { fprintf(stderr, "base %s undecodable: %s\n", b.name.c_str(), e.c_str()); return 3; } classify(b); bases.push_back(b); }
     if (listBases) { for (auto& b : bases) printf("%s %zu bytes, %zu structural bytes\n", b.name.c_str(), b.bytes.size(), b.structural.size()); return 0; }
